@@ -781,8 +781,8 @@ pub fn adv_i64(rng: &mut ChaCha8Rng, honest: i64, w: usize) -> i64 {
     let w = w as i64;
     match rng.gen_range(0..24) {
         0 => honest,
-        1 => honest + 1,
-        2 => honest - 1,
+        1 => honest.wrapping_add(1),
+        2 => honest.wrapping_sub(1),
         3 => 0,
         4 => 1,
         5 => w - 1,
@@ -795,13 +795,13 @@ pub fn adv_i64(rng: &mut ChaCha8Rng, honest: i64, w: usize) -> i64 {
         12 => u32::MAX as i64,
         13 => u32::MAX as i64 - 1,
         14 => 1 << 32,
-        15 => (1 << 32) + honest,
+        15 => (1i64 << 32).wrapping_add(honest),
         16 => 1 << 31,
         17 => (1 << 31) - 1,
         18 => i32::MIN as i64,
         19 => rng.gen_range(0..2 * w + 2),
         20 => -(rng.gen_range(1..w + 2)),
-        21 => (1 << 16) + honest,
+        21 => (1i64 << 16).wrapping_add(honest),
         22 => 65535,
         _ => rng.r#gen(),
     }
